@@ -232,7 +232,11 @@ func (wd *scnWorld) apply(args ...string) interface{} {
 
 // delTable applies a whole-table delete the way KVNode.DeleteRange proposes it
 func (wd *scnWorld) delTable(table string) interface{} {
-	dr := node.DeleteTableRange{Table: table, DeleteAll: true}
+	return wd.delRange(node.DeleteTableRange{Table: table, DeleteAll: true})
+}
+
+// delRange applies a DeleteTableRange the way KVNode.DeleteRange proposes it
+func (wd *scnWorld) delRange(dr node.DeleteTableRange) interface{} {
 	d, _ := json.Marshal(dr)
 	p := struct {
 		ProposeOp  int
